@@ -1,10 +1,12 @@
 package jschema
 
 import (
+	stdErrors "errors"
 	"fmt"
 
 	"github.com/jsightapi/jsight-schema-go-library/bytes"
 	"github.com/jsightapi/jsight-schema-go-library/errors"
+	"github.com/jsightapi/jsight-schema-go-library/internal/lexeme"
 	"github.com/jsightapi/jsight-schema-go-library/internal/sync"
 	internalSchema "github.com/jsightapi/jsight-schema-go-library/notations/jschema/internal/schema"
 	"github.com/jsightapi/jsight-schema-go-library/notations/jschema/internal/schema/constraint"
@@ -28,7 +30,28 @@ func newExampleBuilder(types map[string]internalSchema.Type) *exampleBuilder {
 	}
 }
 
+// Build builds an example for the node. Errors are returned as document errors
+// positioned at the node which caused them.
 func (b *exampleBuilder) Build(node internalSchema.Node) ([]byte, error) {
+	ex, err := b.build(node)
+	if err == nil {
+		return ex, nil
+	}
+
+	var docErr errors.DocumentError
+	if stdErrors.As(err, &docErr) {
+		return nil, err
+	}
+
+	lex := node.BasisLexEventOfSchemaForNode()
+	var e errors.Err
+	if stdErrors.As(err, &e) {
+		return nil, lexeme.NewLexEventError(lex, e)
+	}
+	return nil, lexeme.NewLexEventError(lex, errors.Format(errors.ErrGeneric, err.Error()))
+}
+
+func (b *exampleBuilder) build(node internalSchema.Node) ([]byte, error) {
 	switch typedNode := node.(type) {
 	case *internalSchema.ObjectNode:
 		return b.buildExampleForObjectNode(typedNode)
